@@ -10,9 +10,10 @@ Tol == 25000                 \* capture / wait latency tolerance on lower bounds
 ExitBound == 4000000         \* "exits within bounded time"
 U16(s, i) == s[i] * 256 + s[i + 1]
 \* ---- probes ----
+Off(x) == IF x.vpn THEN 0 ELSE 14           \* raw-IP (VPN) mode: the frame is the datagram without the Ethernet header
 DstOf(x, p) == IF x.scan = "arp" THEN <<SubSeq(p.bytes, 39, 42), 0>>
-               ELSE IF x.scan \in {"icmp"} THEN <<SubSeq(p.bytes, 31, 34), 0>>
-               ELSE <<SubSeq(p.bytes, 31, 34), U16(p.bytes, 37)>>
+               ELSE IF x.scan \in {"icmp"} THEN <<SubSeq(p.bytes, Off(x) + 17, Off(x) + 20), 0>>
+               ELSE <<SubSeq(p.bytes, Off(x) + 17, Off(x) + 20), U16(p.bytes, Off(x) + 23)>>
 PortCount(ranges, p) == Cardinality({i \in 1..Len(ranges) : ranges[i].lo <= p /\ p <= ranges[i].hi})
 Ports(ranges) == UNION {ranges[i].lo..ranges[i].hi : i \in 1..Len(ranges)}
 Excluded(ip, excl) == \E i \in 1..Len(excl) : T4!InNet(ip, excl[i])
@@ -31,8 +32,9 @@ CoverageOK(e) == LET x == e.expect keys == [i \in 1..Len(e.probes) |-> DstOf(x, 
 DstMacFor(x, b) == LET S == {i \in 1..Len(x.dstmacs) : x.dstmacs[i].ip = SubSeq(b, 31, 34)} IN
                    IF x.dstmacs = <<>> THEN x.dstmac ELSE IF S = {} THEN <<>> ELSE x.dstmacs[CHOOSE i \in S : TRUE].mac
 SourceOK(e) == LET x == e.expect IN \A i \in 1..Len(e.probes) : LET b == e.probes[i].bytes IN
-   /\ SubSeq(b, 7, 12) = x.srcmac /\ SubSeq(b, 1, 6) = DstMacFor(x, b)
-   /\ (IF x.scan = "arp" THEN SubSeq(b, 29, 32) = x.srcip ELSE SubSeq(b, 27, 30) = x.srcip)
+   IF x.vpn THEN b[1] \div 16 = 4 /\ SubSeq(b, 13, 16) = x.srcip                                  \* an IPv4 datagram, no link header
+   ELSE /\ SubSeq(b, 7, 12) = x.srcmac /\ SubSeq(b, 1, 6) = DstMacFor(x, b)
+        /\ (IF x.scan = "arp" THEN SubSeq(b, 29, 32) = x.srcip ELSE SubSeq(b, 27, 30) = x.srcip)
 \* ---- chunks: the scan is split into runs of at most 200 port ranges; chunk c covers probes Lo(c)..Hi(c) in capture order ----
 ChunkSizes(x) == x.chunkProbes
 Hi(x, c) == LET RECURSIVE S(_) S(k) == IF k = 0 THEN 0 ELSE S(k - 1) + ChunkSizes(x)[k] IN S(c)
@@ -48,7 +50,7 @@ DelayOK(e) == LET x == e.expect n == Len(e.probes) IN
                 /\ e.exitT <= e.probes[n].t + x.delayUs + ExitBound)
 \* C03: an injected well-formed frame is reported iff it has the reply shape of the scan (with the port ranges of the chunk that was
 \* running when it arrived), by exactly one record carrying the frame's own fields
-CfgAt(e, t) == LET x == e.expect IN [scan |-> x.scan, vpn |-> FALSE, hasNet |-> x.hasNet, net |-> x.target.net, ranges |-> x.chunkRanges[ChunkAt(e, t)]]
+CfgAt(e, t) == LET x == e.expect IN [scan |-> x.scan, vpn |-> x.vpn, hasNet |-> x.hasNet, net |-> x.target.net, ranges |-> x.chunkRanges[ChunkAt(e, t)]]
 RecMatches(x, r, w) == CASE x.scan = "arp" -> r.ip = w.ip /\ r.mac = w.mac
                          [] x.scan \in {"udp", "icmp"} -> r.ip = w.ip /\ r.type = w.type /\ r.code = w.code /\ r.ttl = w.ttl
                          [] OTHER -> r.ip = w.ip /\ r.port = w.port /\ r.flags = w.flags
